@@ -623,3 +623,45 @@ def gen_history_renames(rng, n_renames=4):
                 do("rename", out, rng.choice(sh.dirs("R")) + (next(fresh),))
     hist.append(["drain"])
     return hist
+
+
+def gen_history_filechurn(rng, n_ops=10):
+    """Directed family: bursts of FILE operations (unlimited by the pacing condition) on very few names in one or two
+    directories - create/delete/re-create, create/rename/re-create, replace by rename, move out and back - read by the
+    observer in one or few batches."""
+    sh = Shadow()
+    hist = []
+
+    def do(kind, p, q=None):
+        if sh.apply(kind, tuple(p), tuple(q) if q else None):
+            hist.append(["op", kind, list(p)] + ([list(q)] if q else []))
+            return True
+        return False
+    dirs = [("R",)]
+    if rng.random() < 0.6:
+        d = ("R", rng.choice(NAMES))
+        do("mkdir", d)
+        dirs.append(d)
+        hist.append(["drain"])
+    names = rng.sample(NAMES, 2)
+    for burst in range(rng.randint(1, 3)):
+        for _ in range(n_ops):
+            d = rng.choice(dirs)
+            f = d + (rng.choice(names),)
+            r = rng.random()
+            if sh.ent.get(f) is None:
+                do("touch", f)
+            elif sh.ent.get(f):
+                continue
+            elif r < 0.45:
+                do("unlink", f)
+            elif r < 0.6:
+                do(rng.choice(["write", "chmod"]), f)
+            elif r < 0.85:
+                do("rename", f, rng.choice(dirs) + (rng.choice(names),))
+            else:
+                do("rename", f, ("O", rng.choice(names)))
+            if rng.random() < 0.08:
+                hist.append(["read", rng.randint(1, 3)])
+        hist.append(["drain"])
+    return hist
